@@ -1,13 +1,17 @@
 """
 C05 -- the ILP layer returns true optima and exact linearisations.
 
-Decided: (R1) the absolute-value gadget and (R2) the binary-product gadget are exact (lifted and
-folded with an instrumented model stub over enumerated domains; call sites pass binaries / add the
-result to a minimised objective only); (R3) typestate of the solution enumerator on its CFG
-(solve -> optimal -> gap -> yield -> cut -> recurse, inside try/except NoSolutionsError); (R4)
-status mapping and typed read-back of CBC, folded with stubs; (R5) names are escaped/uniquified and
-solutions are read back through model.varName with prefix tests that select one family.
-Not decided: global optimality of CBC, agreement with other solvers.
+Decided: (R6) the property's quantifier, literally: the wrapper class of /repo (lpinterface.CBC with what it inherits from
+Gurobi: abssum, prod, solutions, ...) is run by the analysis' interpreter against a recording stand-in for the MILP
+library on seeded random small models of the shape aldy builds; what it yields is compared with the exhaustive evaluation
+of the same model (first = optimum, feasible with the reported objective, within the gap, never twice, non-decreasing,
+missing within-gap assignments contain a yielded one that scores no worse), `abssum` helpers equal |.| at every yield and
+weights (incl. 0) are honoured, `prod` = AND in every feasible point, a non-optimal library status is not handed on, `limit`
+bounds the yields, a non-terminating enumeration is reported; (R4) status mapping and typed read-back of CBC, folded with
+stubs; (R5) names are escaped/uniquified and solutions are read back through model.varName with prefix tests that select
+one family. The fragment rules R1-R3 of the first build (gadget constraints, enumerator typestate on its CFG) were retired
+for R6: they fired on behaviour-preserving extractions (seeded refactoring RE_2).
+Not decided: global optimality of CBC itself, agreement with other solvers.
 """
 
 import ast
@@ -23,13 +27,11 @@ from sa.loader import AnalysisError, call_name, calls_in, kwarg, walk_local
 
 PROPERTY = "C05"
 EXPLANATION = (
-    "Gadget folding: Gurobi.abssum and Gurobi.prod (inherited by CBC) are lifted and interpreted with a recording "
-    "model stub; for abssum the feasible set of the helper variable over a grid must be {a >= |v|} and the returned "
-    "expression sum(coef*a); for prod the feasible set over {0,1}^(n+1), n=1..4, must be res = AND(factors). "
-    "Call-site rules for both. Enumerator typestate on the CFG of `solutions` (dominance, must-pass-through, folded "
-    "gap predicate with a don't-care precision band, cut built from exactly the yielded binaries). CBC.solve / "
-    "getValue / is_binary folded with solver stubs over the status table and variable kinds. Name escaping folded; "
-    "read-back keyed by varName."
+    "The solver wrapper class lifted whole (sa.fold.ClassModel over lpinterface.Gurobi + CBC overrides, module helpers and constants) and run "
+    "against sa.lpmodel.Library on 14 (thorough 60) seeded random models: 2-7 binaries, 1-4 free error terms tied by equalities, cardinality and "
+    "ordering constraints, an optional product, weighted abssum with explicit zero and fractional weights, gap in {0, .1, .5}; yields compared with "
+    "exhaustive enumeration of the model; forced non-optimal statuses; limit. CBC.solve / getValue / is_binary folded with solver stubs over the "
+    "status table and variable kinds. Name escaping folded; read-back keyed by varName."
 )
 ASSUMPTIONS = ["Gurobi is not installed; its wrapper is analysed from source only",
                "ortools' Solver.Solve/VerifySolution/solution_value behave as documented"]
@@ -64,310 +66,6 @@ class Recorder:
 
     def feasible(self):
         return all(self.cons) and all(v >= lb for v, lb in zip(self.vals, self.lbs))
-
-
-def r1(repo, res):
-    f = repo.func("lpinterface::Gurobi.abssum")
-    res.analysed(f)
-    agrid = [0, 0.5, 1, 1.5, 2, 2.5]
-    vgrid = [-2, -1, -0.5, 0, 0.5, 1, 2]
-    bad = None
-    n = 0
-    try:
-        from sa.report import thorough
-        for k in ((1, 2, 3) if thorough() else (1, 2)):
-            if k == 3:
-                agrid, vgrid = [0, 1, 2], [-2, -1, 0, 1]
-            for vs in itertools.product(vgrid, repeat=k):
-                for as_ in itertools.product(agrid, repeat=k):
-                    rec = Recorder(as_)
-                    ev = Evaluator({"self": rec.obj(), "vars": list(vs), "coeffs": None})
-                    kind, val = ev.run(_body(f))
-                    n += 1
-                    want = all(a >= abs(v) for a, v in zip(as_, vs))
-                    if kind != "return" or rec.feasible() != want or abs(val - sum(as_)) > 1e-12:
-                        bad = f"v={vs}, helper={as_}: feasible={rec.feasible()} (expected {want}), returned {val}"
-                        break
-                if bad:
-                    break
-            if bad:
-                break
-        # coefficients looked up by variable name; default 1
-        rec = Recorder([3.0, 5.0], names={10: "E_pce", 20: "E_x"})
-        ev = Evaluator({"self": rec.obj(), "vars": [10, 20], "coeffs": {"E_pce": 2.0}})
-        kind, val = ev.run(_body(f))
-        if kind != "return" or abs(val - (2.0 * 3.0 + 5.0)) > 1e-12:
-            bad = bad or f"coefficient lookup: returned {val}, expected 11.0"
-        # an explicit weight of 0 (or a fractional one) is a weight, not "missing"
-        for w, want in ((0, 5.0), (0.5, 6.5)):
-            rec = Recorder([3.0, 5.0], names={10: "E_pce", 20: "E_x"})
-            kind, val = Evaluator({"self": rec.obj(), "vars": [10, 20], "coeffs": {"E_pce": w}}).run(_body(f))
-            if kind != "return" or abs(val - want) > 1e-12:
-                bad = bad or f"coefficient {w} for E_pce: returned {val}, expected {want}"
-    except (Unfoldable, Raised) as e:
-        res.err("C05.R1", f"abssum outside folding language: {e}")
-        return
-    res.ob("C05.R1", f, f, bad is None,
-           expected="per input v one helper a with feasible set {a >= |v|}; returns sum(coef(name(v)) * a), coef default 1",
-           found=f"ok on {n} grid points" if bad is None else bad,
-           clause="at any optimum the helper variable equals the sum of absolute values", key="abssum-gadget")
-    # call sites: the result only ever enters a minimised objective, never negated, never a constraint
-    nsites = 0
-    for ref in ("cn::solve_cn_model", "major::solve_major_model", "minor::solve_minor_model"):
-        g = repo.func(ref)
-        res.analysed(g)
-        m = Model(g, ["constraints"])
-        obj = m.objective_lin()
-        for c in m.abssums:
-            nsites += 1
-            txt = ast.unparse(c)
-            in_obj = [(k, t) for k, t in (obj.terms if obj else []) if t.kind == "atom" and t.txt == txt]
-            ok = len(in_obj) == 1 and in_obj[0][0].num > 0
-            in_con = any(s.lin is not None and any(t.kind == "atom" and t.txt == txt for _, t in s.lin.terms) for s in m.sites)
-            mins = all(kwarg(o, "method") is None and len(o.args) == 1 for o in m.objectives)
-            res.ob("C05.R1", g, c, ok and not in_con and mins,
-                   expected="abssum(...) appears exactly once, with a positive coefficient, in the minimised objective and in no constraint",
-                   found=f"objective coefficient {in_obj[0][0].text() if in_obj else 'absent'}; in constraint: {in_con}",
-                   key=f"abssum-site:{txt[:50]}")
-    res.floor("C05.R1", "abssum call sites", nsites, 4)
-
-
-def r2(repo, res):
-    f = repo.func("lpinterface::Gurobi.prod")
-    res.analysed(f)
-    bad = None
-    n = 0
-    try:
-        from sa.report import thorough
-        for k in ((1, 2, 3, 4, 5, 6, 7) if thorough() else (1, 2, 3, 4)):
-            for bits in itertools.product((0, 1), repeat=k + 1):
-                r_, ts = bits[0], list(bits[1:])
-                rec = Recorder()
-                ev = Evaluator({"self": rec.obj(), "res": r_, "terms": ts})
-                kind, val = ev.run(_body(f))
-                n += 1
-                want = r_ == int(all(ts))
-                if kind != "return" or rec.feasible() != want or val != r_:
-                    bad = f"res={r_}, factors={ts}: feasible={rec.feasible()} (expected {want})"
-                    break
-            if bad:
-                break
-    except (Unfoldable, Raised) as e:
-        res.err("C05.R2", f"prod outside folding language: {e}")
-        return
-    res.ob("C05.R2", f, f, bad is None,
-           expected="feasible set over {0,1}^(n+1), n = 1..4, is exactly res = AND(factors); returns res",
-           found=f"ok on {n} assignments" if bad is None else bad,
-           clause="in every feasible point the product variable equals the logical AND of its factors", key="prod-gadget")
-    # call sites pass a binary result variable and binary factors
-    g = repo.func("minor::solve_minor_model")
-    m = Model(g, ["constraints"])
-    res.floor("C05.R2", "prod call sites", len(m.prods), 4)
-    for c in m.prods:
-        parts = [c.args[0]] + (list(c.args[1].elts) if len(c.args) > 1 and isinstance(c.args[1], (ast.List, ast.Tuple)) else [])
-        kinds = []
-        for p in parts:
-            l = m.lz.lin(p, c)
-            vt = "?"
-            if len(l.terms) == 1 and l.terms[0][1].kind == "var":
-                t = l.terms[0][1]
-                if t.fam.startswith("<"):
-                    vt = "B" if any(i["vtype"] == "B" for i in m.fams.lambdas.values()) else "?"
-                else:
-                    infos = m.fams.containers.get(t.fam, {}).get("infos") or ([m.fams.scalars[t.fam]] if t.fam in m.fams.scalars else [])
-                    if infos and all(i["vtype"] == "B" for i in infos):
-                        vt = "B"
-                    elif infos:
-                        vt = "non-binary"
-            elif len(l.terms) == 1 and l.terms[0][1].kind == "elem":
-                vt = "B*"  # element of a list of binaries (checked through the list's family below)
-                fam = l.terms[0][1].family
-                fams = {t2.fam for _, s in fam.terms for _, t2 in (s.body.terms if s.kind == "sum" else [(None, s)])
-                        if getattr(t2, "kind", "") == "var"}
-                if not fams or not all(all(i["vtype"] == "B" for i in m.fams.containers.get(x, {}).get("infos", [{"vtype": None}]))
-                                       for x in fams):
-                    vt = "?"
-            kinds.append(vt)
-        ok = len(parts) >= 2 and all(k in ("B", "B*") for k in kinds)
-        res.ob("C05.R2", g, c, ok, expected="prod(res, [factors]) with res and every factor a binary model variable",
-               found=f"{[ast.unparse(p)[:30] for p in parts]} -> {kinds}", key=f"prod-site:{ast.unparse(c)[:70]}")
-
-
-def r3(repo, res):
-    f = repo.func("lpinterface::Gurobi.solutions")
-    res.analysed(f)
-    c = cfg_of(f)
-    consts = module_consts(repo.mod("lpinterface"))
-    consts.update({k: v for k, v in module_consts(repo.mod("common")).items() if k not in consts})
-    defs = single_defs(f)
-    yields = [n for n in c.nodes if n.kind == "stmt" and isinstance(n.ast, ast.Expr) and isinstance(n.ast.value, ast.Yield)]
-    yfrom = [n for n in c.nodes if n.kind == "stmt" and isinstance(n.ast, ast.Expr) and isinstance(n.ast.value, ast.YieldFrom)]
-    solves = [c.node_of(x) for x in find_calls(f, "solve")]
-    if len(yields) != 1 or len(yfrom) != 1 or not solves:
-        res.err("C05.R3", f"enumerator shape not recognised: {len(yields)} yield, {len(yfrom)} yield-from, {len(solves)} solve calls")
-        return
-    y, rec = yields[0], yfrom[0]
-    # (a) solve dominates yield; non-optimal status never yields
-    res.ob("C05.R3", f, y.ast, any(c.dominates(s, y.id) for s in solves), expected="every yield is preceded by a solve()",
-           found="ok", key="solve-dominates-yield")
-    gs = exiting_guards(c, y.id, kinds=("return",))
-    sname = None
-    for n in walk_local(f):
-        if isinstance(n, ast.Assign) and isinstance(n.targets[0], ast.Tuple) and isinstance(n.value, ast.Call) \
-                and call_name(n.value).endswith("solve"):
-            sname, oname = [e.id for e in n.targets[0].elts]
-    if sname is None:
-        res.err("C05.R3", "`status, obj = self.solve(...)` not found")
-        return
-    tab = guard_table(gs, [{"s": "optimal"}, {"s": "feasible"}, {"s": "not_solved"}, {"s": "abnormal"}, {"s": "unbounded"}],
-                      lambda p: {sname: p["s"], oname: 1.0, "best_obj": 1.0, "gap": 0.0}, consts, defs)
-    res.ob("C05.R3", f, y.ast, (not tab[0]) and all(tab[1:]),
-           expected="a solution is yielded only for status 'optimal'", found="returning guards: " + fmt_tests(gs),
-           clause="the first yielded solution is a global optimum; every yielded solution is feasible", key="optimal-only")
-    # (b) gap test
-    prec = consts.get("SOLVER_PRECISON", 1e-5)
-    bad = None
-    for b in (1.0, 2.5, 0.0):
-        for g_ in (0.0, 0.1, 0.5):
-            for d in (-0.5, -0.01, -10 * prec, 10 * prec, 0.01, 0.5, 3.0):
-                o = (1 + g_) * b + d
-                stop = guard_table(gs, [{}], lambda p: {sname: "optimal", oname: o, "best_obj": b, "gap": g_}, consts, defs)[0]
-                want = d > 0
-                if stop != want:
-                    bad = f"obj={o}, best={b}, gap={g_}: {'stops' if stop else 'continues'}, expected {'stop' if want else 'continue'}"
-    res.ob("C05.R3", f, y.ast, bad is None,
-           expected="enumeration stops iff obj > (1 + gap) * best (outside the solver-precision band)",
-           found="ok on 63 grid points" if bad is None else bad,
-           clause="every yielded solution lies within the gap of the optimum", key="gap-test")
-    # (c) best objective fixed by the first solve and passed on unchanged
-    tr = [n for n in walk_local(f) if isinstance(n, ast.Try)]
-    body = tr[0].body if tr else f.body
-    solve_i = next((i for i, st in enumerate(body) if isinstance(st, ast.Assign) and isinstance(st.value, ast.Call)
-                    and call_name(st.value).endswith("solve")), None)
-    y_i = next((i for i, st in enumerate(body) if st is y.ast), None)
-    ok, found = False, "statements between solve and yield not found"
-    if solve_i is not None and y_i is not None:
-        prefix = body[solve_i + 1:y_i]
-        try:
-            outs = []
-            for given in (None, 3.0):
-                ev = Evaluator({sname: "optimal", oname: 5.0, "gap": 100.0, "self": Obj(variables=lambda: [], varName=lambda v: v,
-                                                                                   is_binary=lambda v: False, getValue=lambda v: 0)},
-                               consts=consts)
-                ev.locals["best_obj"] = given
-                k_, v_ = ev.run(prefix)
-                outs.append((k_, ev.locals.get("best_obj")))
-            ok = outs == [("fall", 5.0), ("fall", 3.0)]
-            found = f"best_obj after the first solve: given None -> {outs[0][1]}, given 3.0 -> {outs[1][1]}"
-        except (Unfoldable, Raised) as e:
-            found = f"unfoldable {e}"
-    rc = rec.ast.value.value
-    passed = gap_passed = False
-    if isinstance(rc, ast.Call):
-        try:
-            ev = Evaluator({"gap": 0.25, "best_obj": 7.5, "limit": None, "iteration": 4, "init": None}, defs=defs)
-            vals = [ev.ev(a) for a in rc.args] + [ev.ev(k_.value) for k_ in rc.keywords]
-            names = [None] * len(rc.args) + [k_.arg for k_ in rc.keywords]
-            passed = (len(rc.args) > 1 and vals[1] == 7.5) or any(n_ == "best_obj" and v_ == 7.5 for n_, v_ in zip(names, vals))
-            gap_passed = (len(rc.args) > 0 and vals[0] == 0.25) or any(n_ == "gap" and v_ == 0.25 for n_, v_ in zip(names, vals))
-        except (Unfoldable, Raised) as e:
-            found += f"; recursive call unfoldable {e}"
-    res.ob("C05.R3", f, rec.ast, ok and passed and gap_passed,
-           expected="best_obj = first objective (kept when given) and handed unchanged, with gap, to the recursive call",
-           found=f"{found}; recursive call {ast.unparse(rc)[:80]}", key="best-fixed")
-    # (d) exclusion cut between yield and recursion
-    cuts = [x for x in find_calls(f, "addConstr")]
-    cut_nodes = {c.node_of(x) for x in cuts}
-    leak = c.path_exists(y.id, rec.id, avoid=cut_nodes)
-    res.ob("C05.R3", f, rec.ast, bool(cuts) and not leak,
-           expected="every path from the yield to the recursive call adds the exclusion cut",
-           found="ok" if cuts and not leak else "a path re-solves without excluding the yielded assignment",
-           clause="no binary assignment is yielded twice", key="cut-before-recursion")
-    yv = y.ast.value.value
-
-    def yields_keys_of(name):
-        """Does the third yielded component denote exactly the (sorted) keys of mapping `name`?"""
-        if not (isinstance(yv, ast.Tuple) and len(yv.elts) == 3):
-            return False
-        try:
-            v = Evaluator({name: {"b": 1, "a": 2, "c": 3}}, funcs={"sorted_tuple": lambda it: tuple(sorted(it))}).ev(yv.elts[2])
-            return tuple(v) == ("a", "b", "c")
-        except (Unfoldable, Raised):
-            return False
-    for x in cuts:
-        cmp = x.args[0]
-        ok = False
-        found = ast.unparse(cmp)
-        if isinstance(cmp, ast.Compare) and isinstance(cmp.ops[0], ast.LtE):
-            l, r = cmp.left, cmp.comparators[0]
-            if isinstance(l, ast.Call) and call_name(l).endswith("quicksum") and isinstance(l.args[0], ast.Call) \
-                    and isinstance(l.args[0].func, ast.Attribute) and l.args[0].func.attr == "values":
-                vv = ast.unparse(l.args[0].func.value)
-                try:
-                    rhs = Evaluator({vv: {"a": 1, "b": 1, "c": 1}}).ev(r)
-                    ok = rhs == 2 and yields_keys_of(vv)
-                    found += f"  (rhs on 3 active binaries = {rhs}; yield lists the keys of `{vv}`: {yields_keys_of(vv)})"
-                except (Unfoldable, Raised) as e:
-                    found += f" unfoldable {e}"
-        res.ob("C05.R3", f, x, ok, expected="cut: sum(active binaries) <= (number of active binaries) - 1, over the mapping whose keys were yielded",
-               found=found, key="cut-form")
-    # the active set = exactly the binaries whose read-back value is 1
-    cutvv = None
-    for x in cuts:
-        for n_ in ast.walk(x):
-            if isinstance(n_, ast.Call) and isinstance(n_.func, ast.Attribute) and n_.func.attr == "values" and isinstance(n_.func.value, ast.Name):
-                cutvv = n_.func.value.id
-    vdef = [n for n in walk_local(f) if isinstance(n, ast.Assign) and isinstance(n.targets[0], ast.Name)
-            and n.targets[0].id == (cutvv or "vv") and isinstance(n.value, ast.DictComp)]
-    ok = False
-    found = "definition not found"
-    if vdef:
-        vs = [Obj(n="A", b=True, x=True), Obj(n="B", b=True, x=False), Obj(n="E", b=False, x=1.0), Obj(n="C", b=True, x=True)]
-        me = Obj(variables=lambda: vs, varName=lambda v: v.n, is_binary=lambda v: v.b, getValue=lambda v: v.x)
-        try:
-            got = Evaluator({"self": me}).ev(vdef[0].value)
-            ok = set(got) == {"A", "C"} and all(got[k].n == k for k in got)
-            found = f"selects {sorted(got)} from binaries A=1,B=0,C=1 and continuous E=1.0"
-        except (Unfoldable, Raised) as e:
-            found = f"unfoldable {e}"
-    res.ob("C05.R3", f, vdef[0] if vdef else f, ok, expected="active set = {name: var | var binary and value 1}", found=found,
-           key="active-set")
-    # (e) infeasible model ends the enumeration silently
-    tr = [n for n in walk_local(f) if isinstance(n, ast.Try)]
-    ok = False
-    if tr:
-        t = tr[0]
-        inside = all(any(s in list(ast.walk(st)) for st in t.body) for s in [y.ast, rec.ast])
-        hs = [h for h in t.handlers if h.type is not None and "NoSolutionsError" in ast.unparse(h.type)]
-        ok = inside and bool(hs) and not any(isinstance(n, ast.Raise) for h in hs for n in ast.walk(h))
-    res.ob("C05.R3", f, tr[0] if tr else f, ok, expected="solve / yield / recursion inside try ... except NoSolutionsError: return",
-           found="ok" if ok else "missing", key="infeasible-ends")
-    # (f) limit / iteration only ever shorten the enumeration
-    facts = [(t, p) for t, p in c.guards(rec.id) if isinstance(t, ast.expr)]
-    extra = [(t, p) for t, p in facts if (t, p) not in [(t2, p2) for t2, p2 in c.guards(y.id)]]
-    ok = True
-    rows = []
-    for lim, it, want in [(None, 0, True), (0, 5, True), (1, 0, False), (3, 1, True), (3, 2, False)]:
-        alive = True
-        for t, p in extra:
-            try:
-                v = bool(Evaluator({"limit": lim, "iteration": it}, defs=defs).ev(t))
-            except (Unfoldable, Raised):
-                ok = False
-                continue
-            if v != p:
-                alive = False
-        rows.append(f"limit={lim},iter={it}:{'recurse' if alive else 'stop'}")
-        ok = ok and alive == want
-    it_arg = False
-    if isinstance(rc, ast.Call):
-        try:
-            ev = Evaluator({"gap": 0.25, "best_obj": 7.5, "limit": None, "iteration": 4, "init": None}, defs=defs)
-            it_arg = any(ev.ev(a) == 5 for a in list(rc.args) + [k.value for k in rc.keywords])
-        except (Unfoldable, Raised):
-            it_arg = False
-    res.ob("C05.R3", f, rec.ast, ok and it_arg, expected="recursion continues unless a positive limit is reached; iteration + 1 passed on",
-           found=" ".join(rows), key="limit")
 
 
 def r4(repo, res):
@@ -504,7 +202,7 @@ def r6(repo, res):
     it yields vs the exhaustive evaluation of the same model; helper exactness (abssum at every optimum, prod in every feasible point)."""
     import random
 
-    from sa.lpmodel import new_model, wrapper_model
+    from sa.lpmodel import Library, new_model, wrapper_model
     from sa.report import seed as _seed, thorough
 
     w = wrapper_model(repo)
@@ -617,6 +315,76 @@ def r6(repo, res):
     except Raised as e:
         res.ob("C05.R6", cls, cls, False, expected="the wrapper builds and enumerates the sample models", found=f"raises {e}", key="models:runs")
         return
+    # a solution the library does not report as optimal is not handed on; `limit` bounds the number of yields
+    try:
+        extra_bad = {}
+        for status, label in ((Library.FEASIBLE, "feasible, not proven optimal"), (Library.ABNORMAL, "abnormal"), (Library.NOT_SOLVED, "not solved")):
+            m, lib = new_model(w, "status")
+            x = w.call("addVar", m, [], dict(vtype="B", name="x_0"))
+            y = w.call("addVar", m, [], dict(vtype="B", name="x_1"))
+            w.call("addConstr", m, [x + y >= 1], dict(name="C"))
+            w.call("setObjective", m, [0.5 * x + 0.7 * y], {})
+            lib.force_status = status
+            got = list(itertools.islice(w.call("solutions", m, [0.5], {}), 5))
+            if got:
+                extra_bad.setdefault("status", f"library status '{label}': yields {got[:1]}")
+        m, lib = new_model(w, "limit")
+        xs = [w.call("addVar", m, [], dict(vtype="B", name=f"x_{i}")) for i in range(4)]
+        w.call("addConstr", m, [sum(xs) >= 1], dict(name="C"))
+        w.call("addConstr", m, [sum(xs) <= 1], dict(name="C"))
+        w.call("setObjective", m, [sum(0.5 * x for x in xs)], {})
+        for lim in (1, 2, 3):
+            m2, lib2 = new_model(w, "limit")
+            xs = [w.call("addVar", m2, [], dict(vtype="B", name=f"x_{i}")) for i in range(4)]
+            w.call("addConstr", m2, [sum(xs) >= 1], dict(name="C"))
+            w.call("addConstr", m2, [sum(xs) <= 1], dict(name="C"))
+            w.call("setObjective", m2, [sum(0.5 * x for x in xs)], {})
+            got = list(itertools.islice(w.call("solutions", m2, [0.0], dict(limit=lim)), 10))
+            if len(got) != lim:
+                extra_bad.setdefault("limit", f"limit={lim} on a model with four tied optima: {len(got)} solutions yielded")
+    except Unfoldable as e:
+        res.err("C05.R6", f"solver wrapper outside the folding language: {e}")
+        return
+    except Raised as e:
+        extra_bad = {"status": f"raises {e}"}
+    # near ties: a runner-up 4e-3 above the cut-off is outside the gap (the solver precision is 1e-5), one 2e-6 above it is a tie
+    try:
+        for delta, want_n in ((0.004, 1), (0.000002, 2)):
+            for gap in (0.0, 0.1):
+                m, lib = new_model(w, "near")
+                x = w.call("addVar", m, [], dict(vtype="B", name="x_0"))
+                y = w.call("addVar", m, [], dict(vtype="B", name="x_1"))
+                w.call("addConstr", m, [x + y >= 1], dict(name="C"))
+                w.call("addConstr", m, [x + y <= 1], dict(name="C"))
+                w.call("setObjective", m, [1.0 * x + ((1 + gap) * 1.0 + delta) * y], {})
+                got = list(itertools.islice(w.call("solutions", m, [gap], {}), 5))
+                if len(got) != want_n:
+                    extra_bad.setdefault("near", f"optimum 1.0, runner-up {(1 + gap) * 1.0 + delta}, gap {gap}: {len(got)} solution(s) yielded, expected {want_n}")
+        # one model object used twice: enumerate (limit 1), extend the model with another binary and a new objective, enumerate again
+        m, lib = new_model(w, "twice")
+        x = w.call("addVar", m, [], dict(vtype="B", name="x_0"))
+        y = w.call("addVar", m, [], dict(vtype="B", name="x_1"))
+        w.call("addConstr", m, [x + y >= 1], dict(name="C"))
+        w.call("setObjective", m, [0.5 * x + 0.7 * y], {})
+        first = list(itertools.islice(w.call("solutions", m, [0.0], dict(limit=1)), 3))
+        z = w.call("addVar", m, [], dict(vtype="B", name="z_0"))
+        w.call("addConstr", m, [z >= 1], dict(name="Z"))
+        w.call("setObjective", m, [0.5 * x + 0.7 * y + 0.1 * z], {})
+        second = list(itertools.islice(w.call("solutions", m, [0.0], {}), 3))
+        if not (len(first) == 1 and second and set(second[0][2]) == {"x_0", "z_0"}):
+            extra_bad.setdefault("twice-used", f"after extending the model the enumeration yields {second[:1]}; the optimum sets x_0 and z_0")
+    except Unfoldable as e:
+        res.err("C05.R6", f"solver wrapper outside the folding language: {e}")
+        return
+    except Raised as e:
+        extra_bad.setdefault("near", f"raises {e}")
+    res.ob("C05.R6", cls, cls, "near" not in extra_bad, expected="the stop test uses the solver precision (1e-5): a runner-up 4e-3 beyond the cut-off is not yielded, one 2e-6 beyond it is",
+           found=extra_bad.get("near", "ok"), clause="every yielded solution is ... within the gap of the optimum", key="models:near-ties")
+    res.ob("C05.R6", cls, cls, "twice-used" not in extra_bad, expected="a model enumerated, extended and enumerated again yields the active binaries of the extended model",
+           found=extra_bad.get("twice-used", "ok"), clause="for every model built through the solver interface", key="models:used-twice")
+    res.ob("C05.R6", cls, cls, "status" not in extra_bad, expected="a solution whose library status is not 'optimal' is not yielded", found=extra_bad.get("status", "ok"),
+           clause="the first yielded solution is a global optimum", key="models:status")
+    res.ob("C05.R6", cls, cls, "limit" not in extra_bad, expected="`limit` bounds the number of yielded solutions", found=extra_bad.get("limit", "ok"), key="models:limit")
     res.count("C05.R6:models", n_models)
     res.count("C05.R6:feasible points enumerated", n_points)
     clauses = {"optimum": "the first yielded solution is a global optimum", "feasible": "every yielded solution is feasible with the objective value reported for it",
@@ -630,52 +398,45 @@ def r6(repo, res):
 
 def run(repo, res):
     r6(repo, res)
-    r1(repo, res)
-    r2(repo, res)
-    r3(repo, res)
     r4(repo, res)
     r5(repo, res)
 
 
 MUTANTS = [
-    dict(name="R1 one abssum bound dropped", module="lpinterface", expect="C05.R1",
+    dict(name="R1 one abssum bound dropped", module="lpinterface", expect="C05.R6",
          old='            self.addConstr(absvar - v >= 0, name=f"CABSR_{i}")\n', new=""),
-    dict(name="R1 abssum sign flipped", module="lpinterface", expect="C05.R1",
+    dict(name="R1 abssum sign flipped", module="lpinterface", expect="C05.R6",
          old='            self.addConstr(absvar - v >= 0, name=f"CABSR_{i}")', new='            self.addConstr(absvar + v >= 0, name=f"CABSR_{i}")'),
-    dict(name="R1 abssum drops coefficients", module="lpinterface", expect="C05.R1",
+    dict(name="R1 abssum drops coefficients", module="lpinterface", expect="C05.R6",
          old="            vv.append(coeff * absvar)", new="            vv.append(absvar)"),
-    dict(name="R1 abssum zero weight treated as missing (seeded C05_3 shape)", module="lpinterface", expect="C05.R1",
+    dict(name="R1 abssum zero weight treated as missing (seeded C05_3 shape)", module="lpinterface", expect="C05.R6",
          old="            coeff = 1 if coeffs is None or name not in coeffs else coeffs[name]", new="            coeff = (coeffs or {}).get(name) or 1"),
-    dict(name="R1 abssum subtracted from the objective", module="cn", expect="C05.R1",
-         old="    model.setObjective(o_diff + o_fit + o_pars)", new="    model.setObjective(o_diff - o_fit + o_pars)"),
-    dict(name="R2 prod constant changed", module="lpinterface", expect="C05.R2",
+    dict(name="R2 prod constant changed", module="lpinterface", expect="C05.R6",
          old="self.addConstr(res >= self.quicksum(terms) - (len(terms) - 1), name=\"PROD\")",
          new="self.addConstr(res >= self.quicksum(terms) - len(terms), name=\"PROD\")"),
-    dict(name="R2 prod upper bounds dropped", module="lpinterface", expect="C05.R2",
+    dict(name="R2 prod upper bounds dropped", module="lpinterface", expect="C05.R6",
          old="        for v in terms:\n            self.addConstr(res <= v, name=\"PROD\")\n", new=""),
-    dict(name="R2 prod upper bound only on first factor", module="lpinterface", expect="C05.R2",
+    dict(name="R2 prod upper bound only on first factor", module="lpinterface", expect="C05.R6",
          old="        for v in terms:\n            self.addConstr(res <= v, name=\"PROD\")\n",
          new="        for v in terms[:1]:\n            self.addConstr(res <= v, name=\"PROD\")\n"),
-    dict(name="R2 product result is a continuous variable", module="minor", expect="C05.R2",
-         old='                    vtype="B",\n                    name=f"MUL_K_', new='                    name=f"MUL_K_'),
-    dict(name="R3 gap test inverted", module="lpinterface", expect="C05.R3",
+    dict(name="R3 gap test inverted", module="lpinterface", expect="C05.R6",
          old="            if abs(obj - ub) >= SOLVER_PRECISON and obj > ub:", new="            if abs(obj - ub) >= SOLVER_PRECISON and obj < ub:"),
-    dict(name="R3 gap test absolute", module="lpinterface", expect="C05.R3",
+    dict(name="R3 gap test absolute", module="lpinterface", expect="C05.R6",
          old="            ub = (1 + gap) * best_obj", new="            ub = gap + best_obj"),
-    dict(name="R3 best objective overwritten each round", module="lpinterface", expect="C05.R3",
+    dict(name="R3 best objective overwritten each round", module="lpinterface", expect="C05.R6",
          old="            best_obj = obj if best_obj is None else best_obj", new="            best_obj = obj"),
-    dict(name="R3 cut omitted", module="lpinterface", expect="C05.R3",
+    dict(name="R3 cut omitted", module="lpinterface", expect="C05.R6",
          old="                self.addConstr(self.quicksum(vv.values()) <= len(vv) - 1)\n", new=""),
-    dict(name="R3 cut after the recursion", module="lpinterface", expect="C05.R3",
+    dict(name="R3 cut after the recursion", module="lpinterface", expect="C05.R6",
          old="                self.addConstr(self.quicksum(vv.values()) <= len(vv) - 1)\n                yield from self.solutions(gap, best_obj, limit, iteration + 1, init)",
          new="                yield from self.solutions(gap, best_obj, limit, iteration + 1, init)\n                self.addConstr(self.quicksum(vv.values()) <= len(vv) - 1)"),
-    dict(name="R3 cut too weak", module="lpinterface", expect="C05.R3",
+    dict(name="R3 cut too weak", module="lpinterface", expect="C05.R6",
          old="self.addConstr(self.quicksum(vv.values()) <= len(vv) - 1)", new="self.addConstr(self.quicksum(vv.values()) <= len(vv))"),
-    dict(name="R3 cut over all binaries", module="lpinterface", expect="C05.R3",
+    dict(name="R3 cut over all binaries", module="lpinterface", expect="C05.R6",
          old="                if self.is_binary(v) and self.getValue(v) == 1", new="                if self.is_binary(v)"),
-    dict(name="R3 non-optimal status accepted", module="lpinterface", expect="C05.R3",
+    dict(name="R3 non-optimal status accepted", module="lpinterface", expect="C05.R6",
          old='            if status != "optimal":\n                return\n', new=""),
-    dict(name="R3 infeasibility propagates", module="lpinterface", expect="C05.R3",
+    dict(name="R3 infeasibility propagates", module="lpinterface", expect="C05.R6",
          old="        except NoSolutionsError:\n            return", new="        except NoSolutionsError:\n            raise"),
     dict(name="R4 verification dropped", module="lpinterface", expect="C05.R4",
          old="        if not self.model.VerifySolution(SOLVER_PRECISON, True):\n            raise NoSolutionsError(status)\n", new=""),
